@@ -57,6 +57,17 @@ PROPS["C02"] = dict(
         "Zrnt.Proofs.C02.attestationDeltas_phase0_eq",
         "Zrnt.Proofs.C02.targetStakes_phase0_eq",
         "Zrnt.Proofs.C02.effectiveBalance_snapshot_eq",
+        "Zrnt.Proofs.C02.committee_eq_C07",
+        "Zrnt.Proofs.C02.committee_live_eq",
+        "Zrnt.Proofs.C02.attesterData_phase0_live_eq",
+        "Zrnt.Proofs.C02.rewards_phase0_live_eq",
+        "Zrnt.Proofs.C02.processEpoch_live_eq",
+        "Zrnt.Proofs.C02.upgrade_altair_live_eq",
+        "Zrnt.Proofs.C02.oracle_links_composed",
+        "Zrnt.Proofs.C02.processEpoch_oracle_eq",
+        "Zrnt.Proofs.C02.processSlots_oracle_eq",
+        "Zrnt.Proofs.C02.Q_genesis",
+        "Zrnt.Proofs.C02.processSlots_from_genesis_eq",
     ],
     modes=[dict(name="c02", nontrivial=_nontrivial)],
     level="proof",
@@ -81,8 +92,15 @@ PROPS["C02"] = dict(
         "the model answers `any`",
         "a Go panic on a (malformed) state is counted as a rejection (`err`); panic-freedom on invalid input is C03",
         "theorems are on the Nat level: M models the control flow of the Go code without uint64 wrap-around",
-        "the theorems are about the pure forms of S (lean/Zrnt/Beacon/Spec/Pure.lean, EpochPure.lean); the monadic S used as oracle compares itself "
-        "with them on every evaluation (a disagreement would print err-oracle and show as a mismatch)",
+        "the theorems M = S are stated on the pure forms of S (lean/Zrnt/Beacon/Spec/Pure.lean, EpochPure.lean, SlotsPure.lean); oracle_links and "
+        "oracle_links_composed PROVE that the monadic S used as oracle returns exactly these whenever it accepts (every stage, process_epoch, "
+        "upgrade_maybe, process_slots), so processEpoch_oracle_eq / processSlots_oracle_eq speak about the executable oracle; the run-time "
+        "self-comparison inside the monadic S (err-oracle) stays as a second check",
+        "committees: M resolves pending attestations through C07's model of the epochs context (Committees.newEpochsContext / "
+        "Ctx.getBeaconCommittee fed the flat state), proved equal to get_beacon_committee for attestations satisfying PendingOK (what "
+        "process_attestation checked at inclusion: slot in an epoch the context covers, index below the committee count, one bit per member, "
+        "head root still in the state) under LiveHyps (CfgOK, SHUFFLE_ROUND_COUNT <= 255, <= 2^40 validators); that the incrementally "
+        "maintained context of a running chain is the one NewEpochsContext builds from the state is C08 (chain_ctx_invariant)",
         "M takes epc.PreviousEpoch/CurrentEpoch/NextEpoch.ActiveIndices and epc.TotalActiveStake as the active sets / total of the start-of-epoch "
         "registry (EpochsContext correctness is C08); with MAX_SEED_LOOKAHEAD=0 the stale next-epoch actives make the sync committee differ from the "
         "spec's (known finding)",
@@ -92,19 +110,24 @@ PROPS["C02"] = dict(
         level_text="Lean theorems M = S for all inputs (no size bound), from every epoch sub-transition up to the whole of ProcessSlots: "
                    "processSlots_eq (common.ProcessSlots = process_slots with the fork upgrades over any number of slots, for every start state "
                    "satisfying the invariant Q, which process_slot, the whole process_epoch, the slot increment and each upgrade are PROVED to "
-                   "re-establish; Q_genesis_like: genesis-shaped states satisfy it), assembled from processEpoch_eq (all five forks), "
+                   "re-establish; Q_genesis: EVERY state C13's initialize_beacon_state_from_eth1 returns satisfies it, for all deposit lists), "
+                   "assembled from processEpoch_eq (all five forks), "
                    "processSlot_eq, upgrade_{altair,bellatrix,capella,deneb}_eq (incl. TranslateParticipation's bit masks = translate_participation), "
                    "upgradeMaybe_eq (the if-chain = upgrade at the fork epoch's first slot in fork order, any schedule), rewards_phase0_eq, "
                    "flagDeltas_altair_eq, inactivity_eq, rewards_altair_eq, currentTargetStake_eq, registry_updates_eq, justification_eq, "
-                   "slashings_snapshot_eq, effectiveBalance_snapshot_eq, resets/historical/participation/syncCommittee_rotation_eq; oracle_links: "
-                   "the executable monadic spec functions return the pure stage results; plus a differential run Go = M = S per line for every "
+                   "slashings_snapshot_eq, effectiveBalance_snapshot_eq, resets/historical/participation/syncCommittee_rotation_eq; "
+                   "committee_eq_C07 / committee_live_eq: get_beacon_committee = C07's Spec.get_beacon_committee = what the live epochs context "
+                   "returns (epc.GetBeaconCommittee), so rewards_phase0_live_eq, processEpoch_live_eq, upgrade_altair_live_eq hold with the "
+                   "attestations as the code resolves them (no free resolved-indices input); oracle_links + oracle_links_composed: "
+                   "the executable monadic spec functions return the pure results, every stage and the compositions process_epoch, "
+                   "upgrade_maybe, process_slots (processEpoch_oracle_eq, processSlots_oracle_eq); plus a differential run Go = M = S per line for every "
                    "sub-transition, ProcessSlots spans incl. several fork boundaries and the upgrades, on synthetic states of all five forks under "
                    "several parameter sets and on states reached by valid chains with blocks",
         level_note="trusted: Lean kernel, the specification transcription S, the flat exchange format, harness generator; state roots and BLS "
-                   "aggregates are inputs from the Go side. Still resting on Go = S only: committee resolution of pending attestations "
-                   "(get_attesting_indices feeding ResolvedAtt/FlagAtt; not yet related to C07's committee_eq_spec, a second transcription), and the "
-                   "run-time-only comparison monadic-vs-pure for justification_inputs, process_slashings, the historical accumulators and the "
-                   "composed process_epoch/process_slots (oracle_links proves the other stages)",
+                   "aggregates are inputs from the Go side. Still resting on the correspondence only: that pending attestations of reachable states "
+                   "satisfy PendingOK (established by process_attestation, property C01/C03, not threaded through the slot-loop invariant Q here), "
+                   "that the live context equals NewEpochsContext(state) (C08), the uint64 level (theorems are on Nat), and state roots / BLS "
+                   "aggregates (inputs)",
         technique="Lean 4 refinement proofs (code-shaped model = spec) + Go/Lean differential correspondence on flat states",
         design_ref="DESIGN.md 5/C02", engine="lean"),
 )
